@@ -234,6 +234,21 @@ def check_needs_mda(ctx: Ctx) -> None:
     rets = [s for s in stmts_of(f) if isinstance(s, ast.Return)]
     ok, txt = _needs_mda_shape(rets[0].value, f.args.args[1].arg, True) if len(rets) == 1 else (False, "")
     ctx.ob("8.5-needs-mda", cname(MC, "MDAChain", "__requires_mda"), ok, "a group needs an MDA iff it has more than one discipline or its single discipline is self-coupled (and is not already an MDA)", node=(rets or [f])[0])
+    # the only single self-coupled disciplines that need no inner MDA are those that solve their own coupling: MDAs
+    mod = ctx.index.module(MC)
+    base_mda = ctx.index.resolve_qualified("gemseo.mda.base_mda.BaseMDA")
+    ctx.need(base_mda is not None, "BaseMDA not found")
+    for r in rets:
+        for c in ast.walk(r.value):
+            if isinstance(c, ast.Call) and dotted(c.func) == "isinstance" and len(c.args) == 2:
+                names = [dotted(e_) for e_ in (c.args[1].elts if isinstance(c.args[1], ast.Tuple) else [c.args[1]])]
+                bad = []
+                for nm in names:
+                    q = mod.imports.get((nm or "").split(".")[0])
+                    ci = ctx.index.resolve_qualified(q + ("." + nm.split(".", 1)[1] if nm and "." in nm else "")) if q else (mod.classes.get(nm) if nm else None)
+                    if ci is None or not ctx.index.is_subclass(ci, base_mda):
+                        bad.append(nm)
+                ctx.ob("8.5-needs-mda", cname(MC, "MDAChain", "__requires_mda"), not bad, f"a self-coupled discipline is exempted from the inner MDA because it is a {bad}: only an MDA converges its own coupling; any other self-coupled discipline (a chain, a scenario adapter) executed once returns non-converged data", node=c, stmt=f"exempted classes are MDAs: {names}")
     g = ctx.index.func(MD, "_replace_strongly_coupled")
     cfg = cfg_of(g)
     merged = [s for s in stmts_of(g) if isinstance(s, ast.Assign) and isinstance(s.value, ast.Call) and dotted(s.value.func) == "DummyDiscipline"]
@@ -279,14 +294,57 @@ def check_needs_mda(ctx: Ctx) -> None:
     ctx.ob("8.5-strong-couplings", cname(CS, "CouplingStructure", "_compute_strong_couplings"), ok, "strong couplings are, group by group, the variables that are both inputs and outputs of the disciplines of the group", node=(inter or [s])[0])
 
 
+IC = "core/chains/initialization_chain.py"
+
+
+def check_initialization_order(ctx: Ctx) -> None:
+    """8.6: the greedy initialisation order schedules a discipline only when each of its inputs is one of ITS OWN
+    defaults, externally available, or an output of a discipline scheduled before."""
+    from gv.dataflow import SymValues
+
+    f = ctx.index.func(IC, "order_disciplines_from_default_inputs")
+    con = cname(IC, None, "order_disciplines_from_default_inputs")
+    sv = SymValues(f)
+    grow = [c for c in walk_body(f) if isinstance(c, ast.Call) and isinstance(c.func, ast.Attribute) and c.func.attr in ("extend", "update", "append", "add") and isinstance(c.func.value, ast.Name) and c.args and "output_grammar" in norm_stmt(c.args[0])]
+    ctx.need(len(grow) >= 1, "order_disciplines_from_default_inputs: the extension of the available names by a discipline's outputs was not found")
+    avail = grow[0].func.value.id
+    cfg = sv.cfg
+    for g in grow:
+        gn = cfg.node_of(g)
+        loops = [s_ for s_ in stmts_of(f) if isinstance(s_, ast.For) and any(sub is g for sub in ast.walk(s_))]
+        ctx.need(loops, "the extension of the available names is not in a loop over the remaining disciplines")
+        lv = dotted(loops[-1].target)
+        tests = [t for t, v in branch_conditions(cfg, gn) if cfg.kind[t] == "test" and any(sub is cfg.ast[t] for sub in ast.walk(loops[-1]))]
+        ctx.need(len(tests) == 1, "the readiness test of the candidate discipline was not found")
+        tst = cfg.ast[tests[0]].test
+        ok = (names_in(g.args[0]) & {lv}) == {lv} and g.func.value.id == avail
+        ctx.ob("8.6-init-order", con, ok, "the names made available must be the outputs of the discipline being scheduled", node=g, stmt="available += outputs of the scheduled discipline")
+        for alt in sv.exprs(tst):
+            # operands removed from the required inputs: .difference(x) arguments and right operands of `-`
+            removed, base = [], []
+            for n_ in ast.walk(alt):
+                if isinstance(n_, ast.Call) and isinstance(n_.func, ast.Attribute) and n_.func.attr == "difference":
+                    removed.extend(n_.args)
+                elif isinstance(n_, ast.BinOp) and isinstance(n_.op, ast.Sub):
+                    removed.append(n_.right)
+            bad = [norm_stmt(r_, 60) for r_ in removed if not (dotted(r_) == avail or lv in names_in(r_))]
+            has_own = any(lv in names_in(r_) and "defaults" in norm_stmt(r_) for r_ in removed)
+            has_avail = any(dotted(r_) == avail for r_ in removed)
+            req = any(isinstance(n_, ast.Attribute) and n_.attr == "input_grammar" and lv in names_in(n_) for n_ in ast.walk(alt))
+            ctx.ob("8.6-init-order", con, bool(removed) and not bad and has_own and has_avail and req, f"a discipline is ready when its inputs minus its own defaults minus the available names is empty; here the inputs are credited with {bad or 'something else'}: a discipline can then be scheduled before the producer of one of its inputs", node=cfg.ast[tests[0]], stmt="ready iff inputs - own defaults - available is empty")
+    ctx.floor("8.6-init-order", 2)
+
+
 def run(ctx: Ctx) -> None:
     check_orientation(ctx)
+    check_initialization_order(ctx)
     check_chains(ctx)
     check_needs_mda(ctx)
 
 
 # ---------------------------------------------------------------------------
 WITNESSES = [
+    {"name": "init-order-ignores-own-defaults-only", "file": IC, "old": "                available_data_names.extend(disc.io.output_grammar)\n", "new": "                available_data_names.extend(disc.io.input_grammar)\n", "expect": "8.6"},
     {"name": "edges-from-required-inputs-only", "file": DG, "old": "                set(disc.io.input_grammar),\n", "new": "                set(disc.io.input_grammar.required_names),\n", "expect": "8.1"},
     {"name": "edge-reversed", "file": DG, "old": "graph_add_edge(disc_i, disc_j, io=coupled_io)", "new": "graph_add_edge(disc_j, disc_i, io=coupled_io)", "expect": "8.1"},
     {"name": "inputs-outputs-swapped-in-intersection", "file": DG, "old": "        for disc_i, (_, outputs_i) in nodes_to_ios.items():\n            for disc_j, (inputs_j, _) in nodes_to_ios.items():", "new": "        for disc_i, (outputs_i, _) in nodes_to_ios.items():\n            for disc_j, (_, inputs_j) in nodes_to_ios.items():", "expect": "8.1"},
